@@ -84,7 +84,13 @@ Fixpoint wf (l : list lock) : bool :=
 Definition points_of (l : list lock) : list N :=
   flat_map (fun s => [lstart s; N.pred (lstart s); lend s; N.pred (lend s)]) l.
 
-Definition owners_of (l : list lock) : list N := map lowner l.
+Fixpoint dedup (l : list N) : list N :=
+  match l with
+  | [] => []
+  | x :: tl => if existsb (N.eqb x) tl then dedup tl else x :: dedup tl
+  end.
+
+Definition owners_of (l : list lock) : list N := dedup (map lowner l).
 
 (* What a request of type [t] leaves on the bytes it covers. *)
 Definition kreq (t : ltype) : option ltype :=
@@ -94,7 +100,7 @@ Definition expected_kind (pre : list lock) (q : lock) (o b : N) : option ltype :
   if covers q o b then kreq (ltyp q) else kind_at pre o b.
 
 Definition bytes_ok (pre post : list lock) (q : lock) : bool :=
-  let pts := points_of (q :: pre ++ post) in
+  let pts := dedup (points_of (q :: pre ++ post)) in
   let ows := owners_of (q :: pre ++ post) in
   forallb (fun o => forallb (fun b =>
      okind_eqb (kind_at post o b) (expected_kind pre q o b)) pts) ows.
